@@ -14,6 +14,7 @@ mod sm;
 mod smgen;
 mod c13;
 mod c16;
+mod c17;
 mod c19;
 mod c20;
 
@@ -216,6 +217,17 @@ fn main() {
             header = c16::HEADER;
             ctype = c16::CTYPE;
             runner = c16::RUNNER;
+        }
+        "C17" => {
+            if args.replay.is_none() {
+                inputs.extend(c17::generate(&mut rng, args.n, args.thorough));
+            }
+            for i in &inputs {
+                w.push(c17::run_input(i));
+            }
+            header = c17::HEADER;
+            ctype = c17::CTYPE;
+            runner = c17::RUNNER;
         }
         p => {
             eprintln!("unknown property {}", p);
